@@ -384,3 +384,297 @@ def check_cache_history(job):
     finally:
         shutil.rmtree(tmp, ignore_errors=True)
     return findings
+
+
+# ---------------------------------------------------------------------------
+# C18: catalogues
+CAT_SHAPES = [
+    {"len0": 2, "every0": 4, "every1": 2, "chk": [0, 6]},
+    {"len0": 0, "every0": 4, "every1": 4, "chk": []},        # a single output iteration
+    {"len0": 3, "every0": 2, "every1": 2, "chk": [2]},
+]
+CAT_NAMES = ["bbh", "my_restart_run", "arange_rl"]
+
+
+def run_catalogue(max_restarts, max_calls, names=None, layouts=None, simulate=None, seed=None, shapes=None):
+    shapes = shapes or CAT_SHAPES
+    names = names or CAT_NAMES
+    layouts = layouts or LAYOUTS
+    sh = "{" + ", ".join(f"[len0 |-> {s['len0']}, every0 |-> {s['every0']}, every1 |-> {s['every1']}, chk |-> {{" + ",".join(map(str, s["chk"])) + "}]" for s in shapes) + "}"
+    defs = {"Shapes": sh, "Names": "{" + ", ".join(f'"{n}"' for n in names) + "}",
+            "Layouts": "{" + ", ".join(f'<<"{a}", "{b}">>' for a, b in layouts) + "}"}
+    name, text, cl = wrapper("Catalogue", defs)
+    cfg = f"""SPECIFICATION Spec
+CONSTANTS
+{cl}
+  MaxRestarts = {max_restarts}
+  MaxCalls = {max_calls}
+  Emit = TRUE
+INVARIANT NoDuplicateRecords
+INVARIANT RecordsExist
+INVARIANT IncrementalEqualsFresh
+INVARIANT EmitState
+PROPERTY RecordsAppendOnly
+"""
+    kw = {}
+    if simulate:
+        kw = dict(simulate=f"num={simulate}", depth=max_calls + 1, seed=seed)
+    return run_tlc(name, cfg, ["etsim"], extra_files={name + ".tla": text}, timeout=3000, **kw)
+
+
+def _norm(x):
+    """iterations()/read_iterations() results by value (numpy ints, arrays, lists)."""
+    if isinstance(x, dict):
+        return {(_norm(k) if not isinstance(k, str) else k): _norm(v) for k, v in x.items()}
+    if isinstance(x, (list, tuple, np.ndarray)):
+        return [_norm(v) for v in x]
+    if isinstance(x, (np.integer,)):
+        return int(x)
+    return x
+
+
+def _seq(x):
+    if isinstance(x, dict):
+        return [x[k] for k in sorted(x, key=lambda s: int(s))]
+    return list(x)
+
+
+def expand(segments):
+    out = set()
+    for s in segments:
+        s = [int(v) for v in s]
+        if len(s) == 1:
+            out.add(s[0])
+        else:
+            out |= set(range(s[0], s[1] + 1, s[2]))
+    return out
+
+
+def check_catalogue(job):
+    st, seq = job
+    import aurel.reading as R
+    findings = []
+    M = (3, 3, 3)
+    layout = tuple(st["layout"])
+    name = st["name"]
+    nlev = st["nlev"]
+    chunks = TWO_CHUNKS[1]((3, 4, 3)) if layout[0] == "proc" else None
+    if chunks:
+        M = (3, 4, 3)
+    restarts = _seq(st["restarts"])
+    scans = _seq(st["scan"])
+    tmp = tempfile.mkdtemp(prefix="vcat_")
+    sig0 = {"name_class": "plain" if name == "bbh" else name}
+
+    def add_restart(k):
+        r = restarts[k]
+        # gen_et writes multiples of `every` in lo..hi for every level with the same stride; levels differ here:
+        G_make(tmp, name, k, r, M, chunks, layout, nlev)
+
+    def hist_txt(n):
+        out = []
+        for h in st["hist"][:n]:
+            if h["op"] == "run":
+                out.append("new restart")
+            elif h["op"] == "iterations":
+                out.append(f"iterations(skip_last={h['skip']})")
+            elif h["op"] == "get_content":
+                out.append(f"get_content(restart={h['restart']}, overwrite={h['overwrite']})")
+            else:
+                out.append("read_iterations()")
+        return "; ".join(out)
+
+    try:
+        nres = 1
+        add_restart(0)
+        param = sim_param(tmp, name)
+        recorded = []
+        for n, h in enumerate(st["hist"], start=1):
+            where = f"sim {name!r} ({'-'.join(layout)}, {nlev} level(s)), after: {hist_txt(n)}"
+            if h["op"] == "run":
+                add_restart(nres)
+                nres += 1
+                continue
+            existing = list(range(nres))
+            if h["op"] in ("iterations", "read_iterations"):
+                skip = h.get("skip", True)
+                try:
+                    if h["op"] == "iterations":
+                        got = R.iterations(param, skip_last=skip, verbose=False)
+                    else:
+                        got = R.read_iterations(param, verbose=False)
+                    raised = None
+                except ImportError as ex:
+                    raised = "ImportError"
+                except Exception as ex:
+                    raised = type(ex).__name__ + ": " + str(ex)[:120]
+                file_existed = any(x["op"] in ("iterations", "read_iterations") for x in st["hist"][:n - 1])
+                if h["op"] == "iterations" or not file_existed:
+                    todo = [r for r in (existing[:-1] if skip else existing) if r not in recorded]
+                    recorded = recorded + todo
+                if raised:
+                    if not (h["raises"] and raised == "ImportError"):
+                        findings.append(({"clause": "CatalogueReturns", "exc": raised.split(":")[0], **sig0},
+                                         f"{where}: the last call raised {raised}", {"state": st, "step": n}))
+                        break
+                    continue
+                if h["raises"]:
+                    continue    # nothing to process: raising is the documented answer, returning {} is tolerated
+                got = _norm(got)
+                overall = got.pop("overall", None)
+                if sorted(k for k in got if k != "overall") != sorted(recorded):
+                    findings.append(({"clause": "CatalogueFaithful", "kind": "restarts", **sig0},
+                                     f"{where}: catalogue lists restarts {sorted(got)}, on disk (and processed) are {sorted(recorded)}",
+                                     {"state": st, "step": n}))
+                    break
+                bad = None
+                for r in recorded:
+                    sc = scans[r]
+                    g = got[r]
+                    if g.get("its available") != list(sc["its"]):
+                        bad = f"restart {r}: 'its available' = {g.get('its available')}, on disk {list(sc['its'])}"
+                    for l, want in enumerate(_seq(sc["rl"])):
+                        if g.get(f"rl = {l}") != list(want):
+                            bad = f"restart {r}: 'rl = {l}' = {g.get(f'rl = {l}')}, on disk {list(want)}"
+                    if sorted(g.get("checkpoints", [])) != sorted(sc["chk"]):
+                        bad = f"restart {r}: checkpoints {g.get('checkpoints')}, on disk {sorted(sc['chk'])}"
+                    if set(g.get("var available", [])) != {"alpha", "betaup3"} | set(extra_vars(r)):
+                        bad = f"restart {r}: variables {g.get('var available')}, on disk alpha, betaup3, {extra_vars(r)}"
+                    if bad:
+                        break
+                if bad:
+                    findings.append(({"clause": "CatalogueFaithful", "kind": bad.split(":")[1].split("=")[0].strip()[:20], **sig0},
+                                     f"{where}: {bad}", {"state": st, "step": n}))
+                    break
+                if h["op"] == "iterations":
+                    allits = _seq(st["allits"]) if n == len(st["hist"]) else None
+                    if allits is not None and overall is not None:
+                        for l, want in enumerate(allits):
+                            segs = overall.get(f"rl = {l}", [])
+                            if expand(segs) != set(want):
+                                findings.append(({"clause": "OverallIsUnion", **sig0},
+                                                 f"{where}: overall 'rl = {l}' = {segs} covers {sorted(expand(segs))}, the restarts hold {sorted(want)}",
+                                                 {"state": st, "step": n}))
+                    # the file parses back to what was returned, and repeating the call changes nothing
+                    try:
+                        back = _norm(R.read_iterations(param, verbose=False))
+                    except Exception as ex:
+                        findings.append(({"clause": "FileParsesBack", "exc": type(ex).__name__, **sig0},
+                                         f"{where}: read_iterations() on the file just written raised {type(ex).__name__}: {str(ex)[:120]}",
+                                         {"state": st, "step": n}))
+                        break
+                    if back != got:
+                        diff = [r for r in got if back.get(r) != got[r]]
+                        findings.append(({"clause": "FileParsesBack", **sig0},
+                                         f"{where}: iterations.txt parses back differently for restart(s) {diff}: {back.get(diff[0]) if diff else back} "
+                                         f"vs returned {got.get(diff[0]) if diff else got}", {"state": st, "step": n}))
+                        break
+                    try:
+                        again = _norm(R.iterations(param, skip_last=skip, verbose=False))
+                    except Exception as ex:
+                        findings.append(({"clause": "RepeatIsIdentity", "call": "iterations", "exc": type(ex).__name__, **sig0},
+                                         f"{where}: repeating the call raised {type(ex).__name__}: {str(ex)[:120]}", {"state": st, "step": n}))
+                        break
+                    again.pop("overall", None)
+                    if again != got:
+                        findings.append(({"clause": "RepeatIsIdentity", "call": "iterations", **sig0},
+                                         f"{where}: repeating the call returns something else", {"state": st, "step": n}))
+                        break
+            else:
+                r = h["restart"]
+                d = os.path.join(tmp, name, f"output-{r:04d}", name) + "/"
+                try:
+                    got = R.get_content(param, restart=r, overwrite=h["overwrite"], verbose=False)
+                except Exception as ex:
+                    findings.append(({"clause": "CatalogueReturns", "exc": type(ex).__name__, "call": "get_content", **sig0},
+                                     f"{where}: get_content raised {type(ex).__name__}: {ex}", {"state": st, "step": n}))
+                    break
+                want = expected_content(d, layout, chunks, r)
+                gotn = {tuple(k): sorted(v) for k, v in got.items()}
+                if gotn != want:
+                    findings.append(({"clause": "ContentFaithful", **sig0},
+                                     f"{where}: get_content returned {sorted(gotn)}, on disk {sorted(want)} (or file lists differ)",
+                                     {"state": st, "step": n}))
+                    break
+                with open(d + "content.txt") as fh:
+                    back = {tuple(k.split(",")): sorted(v) for k, v in json.load(fh).items()}
+                again = {tuple(k): sorted(v) for k, v in R.get_content(param, restart=r, verbose=False).items()}
+                if back != gotn or again != gotn:
+                    findings.append(({"clause": "FileParsesBack", "call": "get_content", **sig0},
+                                     f"{where}: content.txt / a repeated call differ from what was returned", {"state": st, "step": n}))
+                    break
+        else:
+            # incremental cataloguing ends where one fresh scan ends
+            try:
+                inc = _norm(R.iterations(param, skip_last=False, verbose=False))
+                fresh_root = tempfile.mkdtemp(prefix="vcatf_")
+                try:
+                    shutil.copytree(os.path.join(tmp, name), os.path.join(fresh_root, name),
+                                    ignore=shutil.ignore_patterns("iterations.txt", "content.txt"))
+                    fparam = dict(param)
+                    fparam["simpath"] = fresh_root + "/"
+                    fresh = _norm(R.iterations(fparam, skip_last=False, verbose=False))
+                finally:
+                    shutil.rmtree(fresh_root, ignore_errors=True)
+                if inc != fresh:
+                    diff = [k for k in fresh if inc.get(k) != fresh[k]]
+                    findings.append(({"clause": "IncrementalEqualsFresh", **sig0},
+                                     f"sim {name!r} ({'-'.join(layout)}), after: {hist_txt(len(st['hist']))}; iterations(skip_last=False): incremental "
+                                     f"catalogue differs from a fresh scan at {diff}: {inc.get(diff[0]) if diff else ''} vs {fresh.get(diff[0]) if diff else ''}",
+                                     {"state": st}))
+            except Exception as ex:
+                findings.append(({"clause": "CatalogueReturns", "exc": type(ex).__name__, "final": True, **sig0},
+                                 f"sim {name!r}, after: {hist_txt(len(st['hist']))}; final iterations(skip_last=False) raised {type(ex).__name__}: {str(ex)[:150]}",
+                                 {"state": st}))
+    finally:
+        shutil.rmtree(tmp, ignore_errors=True)
+    return findings
+
+
+def G_make(tmp, name, k, r, M, chunks, layout, nlev):
+    """Write restart number k with level-dependent strides (level 0: every0, level 1: every1)."""
+    import h5py
+    d = os.path.join(tmp, name, f"output-{k:04d}", name)
+    os.makedirs(d, exist_ok=True)
+    if k == 0:
+        G.write_par(os.path.join(tmp, name, "output-0000", name + ".par"), M)
+    chunks = chunks or G.one_chunk(M)
+    handles = {}
+    for var in G.VARS_DEFAULT + extra_vars(k):
+        thorn, group = G.GROUPS[var]
+        for rl in range(nlev):
+            every = r["every0"] if rl == 0 else r["every1"]
+            for it in range(r["lo"], r["hi"] + 1):
+                if it % every:
+                    continue
+                E = G.extended(var, k, it, rl, M, 1)
+                for ch in chunks:
+                    base = group if layout[1] == "grouped" else var
+                    fn = os.path.join(d, base + (f".file_{ch['c']}" if layout[0] == "proc" else "") + ".h5")
+                    if fn not in handles:
+                        handles[fn] = h5py.File(fn, "w")
+                        handles[fn].create_group("Parameters and Global Attributes")
+                    key = f"{thorn}::{var} it={it} tl=0 rl={rl}" + (f" c={ch['c']}" if len(chunks) > 1 else "")
+                    ds = handles[fn].create_dataset(key, data=G.piece(E, ch, 1))
+                    ds.attrs["cctk_nghostzones"] = np.array([1, 1, 1], dtype=np.int32)
+                    ds.attrs["iorigin"] = np.array([ch["x"][0], ch["y"][0], ch["z"][0]], dtype=np.int32)
+                    ds.attrs["time"] = np.float64(G.time_of(it))
+    for h in handles.values():
+        h.close()
+    for c in r["chk"]:
+        open(os.path.join(d, f"checkpoint.chkpt.it_{c}.h5"), "w").close()
+
+
+def extra_vars(k):
+    """Variables of a thorn aurel does not know; the set written differs between restarts."""
+    return ["bar", "foo"] if k % 2 == 0 else ["bar", "baz", "foo"]
+
+
+def expected_content(d, layout, chunks, k=0):
+    nch = len(chunks) if chunks else 1
+    suffixes = [f".file_{c}" for c in range(nch)] if layout[0] == "proc" else [""]
+    if layout[1] == "grouped":
+        return {("alp",): sorted(d + "admbase-lapse" + s + ".h5" for s in suffixes),
+                ("betax", "betay", "betaz"): sorted(d + "admbase-shift" + s + ".h5" for s in suffixes),
+                tuple(extra_vars(k)): sorted(d + "mythorn-stuff" + s + ".h5" for s in suffixes)}
+    return {(v,): sorted(d + v + s + ".h5" for s in suffixes) for v in G.VARS_DEFAULT + extra_vars(k)}
